@@ -71,7 +71,9 @@ zix_bump_realloc(ZixAllocator* const allocator,
 {
   ZixBumpAllocator* const state = (ZixBumpAllocator*)allocator;
 
-  if ((char*)ptr != (char*)state->buffer + state->last) {
+  // Only the last block can grow, and only while it has not been freed
+  if ((char*)ptr != (char*)state->buffer + state->last ||
+      state->last >= state->top) {
     return NULL;
   }
 
